@@ -78,7 +78,7 @@ EPOCH = datetime.datetime(2030, 1, 1, tzinfo=datetime.timezone.utc)
 # 1. direct calls of process_peering_event
 IDS = ["me", "op-a", "op-b", "ghost", "dev@host/20300101000000/x1z", "ünï-ç"]
 BAD_PRIO = ["10", "high", None, [1], {"a": 1}]
-BAD_LIFE = ["30", " 7 ", "+4", "1_0", "-2", "abc", "", "1.5", "0x10", "1__0", "_1", None, [1], {"a": 1}]
+BAD_LIFE = ["30", "86400", " 7 ", "+4", "1_0", "-2", "abc", "", "1.5", "0x10", "1__0", "_1", None, [1], {"a": 1}]
 
 
 def gen_record(rng: Any, my_prio: int) -> Any:
@@ -99,7 +99,7 @@ def gen_record(rng: Any, my_prio: int) -> Any:
     if c < 0.15:
         pass
     elif c < 0.86:
-        life = r["lifetime"] = rng.choice([0, 1, 1, 2, 5, 10, 60, -5, 3600])
+        life = r["lifetime"] = rng.choice([0, 1, 1, 2, 5, 10, 60, -5, 3600] + ([rng.choice(DAYS)] * 2))
     elif c < 0.89:
         life = r["lifetime"] = rng.choice([True, False])
     else:
@@ -240,6 +240,7 @@ def model_view(out: Any, interrupted: bool) -> Any:
 
 # =================================================================================================
 # 3. histories
+DAYS = [86399, 86400, 86401, 86430, 172800, 604800, 90061]     # around and beyond one day (timedelta.days != 0)
 PRIOS = [0, 5, 10, 50, 100, 1000, -5]
 LIFES = [1, 2, 2, 3, 4, 6, 8, 10, 12, 20, 60]
 
@@ -256,6 +257,9 @@ def gen_history(rng: Any, seed: int) -> dict:
     if clash:
         prios[1] = prios[0]
     ops = {nm: {"priority": prios[k], "lifetime": rng.choice(LIFES)} for k, nm in enumerate(names)}
+    if rng.random() < 0.08:          # somebody configured with a lifetime of a day or more
+        for nm in rng.sample(names, rng.choice([1, 1, 2])):
+            ops[nm]["lifetime"] = rng.choice(DAYS)
     end = rng.choice([40.0, 60.0, 90.0, 120.0])
     tl: list[list] = []
     running: dict[str, bool] = {}
@@ -449,8 +453,18 @@ def oracle_history(ctx: Ctx, sc: dict, tr: dict, full: bool = False) -> dict:
         pcalls_by_inc.setdefault(p["inc"], []).append(p)
 
     # ---- (A) stable windows: every running operator has a fresh record, has processed the latest status ----------
-    checkpoints = sorted({k * 0.5 + 0.25 for k in range(int(H.t_end * 2))} |
-                         {e[0] - LAT for e in sc["timeline"] if e[0] > 1} | {H.t_end - LAT})
+    step = max(0.5, round(H.t_end / 600.0 * 4) / 4)          # a half-second grid, coarser for day-long histories ...
+    deadlines = set()          # the expiries that really happened: the record was still there at its deadline
+    for h in H.ph:
+        for ident, r in (h["status"] or {}).items():
+            d = H.deadline(r)
+            if d is not None and h["t"] <= d < H.t_end and H.status_at(d)[0].get(ident) == r:
+                deadlines.add(d)
+    checkpoints = sorted({k * step + 0.25 for k in range(int(H.t_end / step))} |
+                         {e[0] - LAT for e in sc["timeline"] if e[0] > 1} | {H.t_end - LAT} |
+                         # ... plus the moments around every expiry (just before; settled after)
+                         {d - LAT for d in deadlines} | {d + H.W + 0.25 for d in deadlines} | {d + H.W + 2.25 for d in deadlines})
+    pc_t0 = {k: [p["t0"] for p in v] for k, v in pcalls_by_inc.items()}
     for tc in checkpoints:
         if tc <= 0 or tc >= H.t_end:
             continue
@@ -464,10 +478,8 @@ def oracle_history(ctx: Ctx, sc: dict, tr: dict, full: bool = False) -> dict:
             if r is None or not H.live(r, tc) or r.get("priority", 0) != i["priority"]:
                 stable = False
                 break
-            last = None
-            for p in pcalls_by_inc.get(i["inc"], []):
-                if p["t0"] <= tc * TPS:
-                    last = p
+            kk = bisect.bisect_right(pc_t0.get(i["inc"], []), tc * TPS) - 1
+            last = pcalls_by_inc[i["inc"]][kk] if kk >= 0 else None
             if last is None or last["rv"] != rv or last["now2"] is None or last["now2"] > tc * TPS or last["error"] not in (None, "cancelled"):
                 stable = False
                 break
@@ -811,14 +823,14 @@ def check_direct(ctx: Ctx, cases: list[dict], reqs: list, impls: list, wheres: l
 
 
 def check_keepalive(ctx: Ctx) -> None:
-    ka = [[L, j, "cancel" if (L + j) % 7 == 0 else "stop"] for L in list(range(0, 131)) + [600, 3600, -4] for j in range(5, 11)]
-    touch = [[p, L, a] for p in (0, 7, -2) for L in (60, 1, 0, -3, 2) for a in (None, 0, 5)]
+    ka = [[L, j, "cancel" if (L + j) % 7 == 0 else "stop"] for L in list(range(0, 131)) + [600, 3600, -4] + DAYS for j in range(5, 11)]
+    touch = [[p, L, a] for p in (0, 7, -2) for L in [60, 1, 0, -3, 2] + DAYS for a in (None, 0, 5, 86400, 172801)]
     res = _run_pool([{"kind": "ka", "ka": ka, "touch": touch}], wall=120.0)[0]["trace"]
     reqs, impls, wh = [], [], []
     for r in res["ka"]:
         L, j = r["lifetime"], r["jitter"]
         ctx.case(key={"ka": [min(L, 12), j]}, nontrivial=True)
-        ctx.count("keepalive.lifetime", "0" if L == 0 else "1" if L == 1 else "2-6" if L <= 6 else "7-15" if L <= 15 else ">15")
+        ctx.count("keepalive.lifetime", "0" if L == 0 else "1" if L == 1 else "2-6" if L <= 6 else "7-15" if L <= 15 else ">15" if L < 86399 else ">=1day")
         if r["bounds"] != [[5, 10]] or len(r["sleeps"]) != 1:
             ctx.tie_fail("keepalive no longer draws one jitter from randint(5, 10) per round", {"keepalive": r})
             continue
@@ -842,6 +854,10 @@ def check_keepalive(ctx: Ctx) -> None:
         if eff >= 1 and not (isinstance(r["value"], dict) and r["value"].get("lastseen") == r["now"]):
             ctx.oracle_fail("touch() with a positive lifetime did not write a record stamped now", {"touch": r},
                             {"site": "peering.touch", "shape": "no fresh record"})
+        elif eff >= 1 and (r["value"].get("lifetime") != eff or r["value"].get("priority") != r["prio"]):
+            ctx.oracle_fail(f"touch() wrote lifetime {r['value'].get('lifetime')} / priority {r['value'].get('priority')} into the record, "
+                            f"the operator is configured with lifetime {eff} / priority {r['prio']}: peers compute another deadline than the "
+                            f"one the operator renews for", {"touch": r}, {"site": "peering.touch", "shape": "written record differs from the configuration"})
         if eff == 0 and r["value"] is not None:
             ctx.oracle_fail("touch(lifetime=0) did not remove the record", {"touch": r}, {"site": "peering.touch", "shape": "no withdrawal"})
         reqs.append(["C13.touch", TPS, r["prio"], eff, r["now"]])
